@@ -44,6 +44,11 @@ def plan(tier, seed):
             ph = "PhaseSpaceFactorAbs" if (L + rep) % 2 == 0 else REAL_PHSP[(rep + c + p) % 3]
             cases.append({"cls": "RelativisticKMatrix", "n_ch": c, "n_poles": p, "L": L, "phsp": ph, "rep": rep, "sub": True,
                           "cost": 2 + (40 if c == 3 else 0)})
+    # call histories in one process (matrix templates are cached per n_channels)
+    for c in (1, 2):
+        for k, seq in enumerate([[1, 2, 1], [2, 1, 3], [3, 1]]):
+            cases.append({"cls": "history", "klass": "NonRelativisticKMatrix", "n_ch": c, "n_poles": 0, "L": 0, "rep": k, "seq": seq, "cost": 2 * len(seq)})
+            cases.append({"cls": "history", "klass": "RelativisticKMatrix", "n_ch": c, "n_poles": 0, "L": 0, "rep": k, "seq": seq, "cost": 4 * len(seq)})
     if tier == "quick":
         cases = [c for c in cases if not (c["n_ch"] == 2 and c["n_poles"] == 3 and c["L"] == 2 and c["rep"] == 1)]
     return cases
@@ -111,6 +116,19 @@ def run_case(case, rec, ctx):
     import ampform.dynamics as D
     K = ctx["K"]
     ctx["case_rng"] = np.random.default_rng([ctx["seed"], 9, case["idx"]])
+    if case["cls"] == "history":
+        ctx["case_sub"] = False
+        for j, n_poles in enumerate(case["seq"]):
+            if case["klass"] == "NonRelativisticKMatrix":
+                if j == 1:
+                    K.NonRelativisticKMatrix.formulate(case["n_ch"], n_poles, parametrize=False)
+                K.NonRelativisticKMatrix.formulate(case["n_ch"], n_poles)
+            else:
+                if j == 1:
+                    K.RelativisticKMatrix.formulate(case["n_ch"], n_poles, return_t_hat=True)
+                K.RelativisticKMatrix.formulate(case["n_ch"], n_poles, phsp_factor=getattr(D, REAL_PHSP[(j + case["rep"]) % 3]),
+                                                angular_momentum=(j + case["rep"]) % 3, meson_radius=[1, 2][j % 2])
+        return
     cls = getattr(K, case["cls"])
     ctx["case_sub"] = bool(case.get("sub"))
     if case["cls"] == "NonRelativisticKMatrix":
